@@ -119,6 +119,12 @@ func opsWorker(name string, res *core.Result, r *core.RNG, tier, out string) err
 			s.finish(&items)
 		}
 	}
+	if (name == "slots" || name == "hostile") && core.Shard == 2%core.Shards {
+		// distinct reports back to back on the real UDP socket: each slot is a function of the reports received for it
+		if err := schedBurst(res, r.Fork()); err != nil {
+			return err
+		}
+	}
 	if name == "hostile" && core.Shard == 1 {
 		// conflicting authorizations while the device's datagrams are in flight (a crash here kills this worker)
 		if err := schedBanInFlight(res, r.Fork()); err != nil {
@@ -139,7 +145,7 @@ func opsWorker(name string, res *core.Result, r *core.RNG, tier, out string) err
 }
 
 var requiredClasses = map[string][]string{
-	"slots":    {"dgram.report", "dgram.replay", "dgram.resigned-same-content", "outcome.changed", "slots.tour"},
+	"slots":    {"dgram.report", "dgram.replay", "dgram.resigned-same-content", "outcome.changed", "slots.tour", "sched.burst"},
 	"weeks":    {"rotate.rotated", "stats.archived", "stats.live1", "stats.live2", "stats.future", "stats.misaligned", "stats.huge", "stats.false-negatives", "impact.round", "weeks.tour"},
 	"restart":  {"restart", "restart.catchup", "restart.tour"},
 	"equip":    {"authorize.new", "authorize.duplicate", "authorize.bad-signature", "authorize.conflict-field", "authorize.conflict-other-key", "authorize.banned-id", "authorize.before-registration", "authorize.conflict-signed-zero", "equip.tour"},
